@@ -74,6 +74,10 @@ func keysOf(m map[string]string) []string {
 }
 
 func runC13(c *Ctx) {
+	// values are named after the expression that produced them, also when an unexported helper with one success exit
+	// (a parsing phase) stands between the producer and the use
+	c.inlineHelpers = true
+	defer func() { c.inlineHelpers = false }()
 	pv := modPkg + pPV
 	sp := c.SPkg[pv]
 	if sp == nil {
@@ -242,7 +246,19 @@ func runC13(c *Ctx) {
 	{
 		// every member name of the replace document is tested against the constant set {publicKeys, services}, in any
 		// spelling (membership function over a literal, map literal lookup, switch / equality chain); for-all form
+		// (in Validate itself, or in the unexported phase helper that Validate requires to succeed)
+		host := repl
 		tests := c.constSetTests(repl, nil, func(p string) bool { return strings.Contains(p, "range(") })
+		hostRequired := true
+		if len(tests) == 0 {
+			for _, g := range c.helpersOf(repl, 2) {
+				if ts := c.constSetTests(g, nil, func(p string) bool { return strings.Contains(p, "range(") }); len(ts) > 0 {
+					host, tests = g, ts
+					hostRequired, _, _ = c.Guard(repl, nil, &GCheck{Name: "call to " + short(g.String()) + " succeeded", MatchCall: func(c *Ctx, call *ssa.Call, env Env) bool { return call.Call.StaticCallee() == g }}, nil)
+					break
+				}
+			}
+		}
 		okSet, okAll := false, false
 		var got [][]string
 		for _, t := range tests {
@@ -255,9 +271,9 @@ func runC13(c *Ctx) {
 			for _, e := range t.member {
 				cut[e] = true
 			}
-			for _, l := range naturalLoops(repl) {
+			for _, l := range naturalLoops(host) {
 				if l.blocks[t.blk] {
-					if ok, _ := c.loopForall(repl, l, cut, "member name ∈ allowed set"); ok && !loopBypassed(repl, l) {
+					if ok, _ := c.loopForall(host, l, cut, "member name ∈ allowed set"); ok && !loopBypassed(host, l) && hostRequired {
 						okAll = true
 					}
 				}
@@ -331,6 +347,34 @@ func (c *Ctx) setOps(v ssa.Value, env Env, depth int, look, fill map[string]bool
 			}
 		}
 	}
+}
+
+// helpersOf: the unexported functions of f's package that f calls statically (transitively, up to depth levels), in
+// call order.
+func (c *Ctx) helpersOf(f *ssa.Function, depth int) []*ssa.Function {
+	var out []*ssa.Function
+	seen := map[*ssa.Function]bool{f: true}
+	var visit func(g *ssa.Function, d int)
+	visit = func(g *ssa.Function, d int) {
+		if d >= depth {
+			return
+		}
+		forEachInstr(g, func(in ssa.Instruction) {
+			cl, ok := in.(*ssa.Call)
+			if !ok {
+				return
+			}
+			h := cl.Call.StaticCallee()
+			if h == nil || seen[h] || !inModule(h) || h.Blocks == nil || pkgPathOf(h) != pkgPathOf(f) || (h.Object() != nil && h.Object().Exported()) {
+				return
+			}
+			seen[h] = true
+			out = append(out, h)
+			visit(h, d+1)
+		})
+	}
+	visit(f, 0)
+	return out
 }
 
 // isLocalSet: v is a map made in the function under analysis (directly, or handed to the helper whose frame env
@@ -515,64 +559,64 @@ func (c *Ctx) serviceRules(key string, entry *ssa.Function, S pathPred, idRules 
 	for i, ck := range uriOK(sufP(E, ".(string)#0")) {
 		c.forAllDeep("C13.G1", fmt.Sprintf("%s:string-endpoint-uri-%d", k, i), entry, nil, anyOf("endpoint is not a string, or "+ck.Name, notString(E), ck))
 	}
-	c.endpointListRule(k, entry, uriOK, notString)
+	c.endpointListRule(k, entry, E, uriOK, notString)
 }
 
-// endpointListRule: in the function that handles a list endpoint, every iteration crosses
-// (entry not a string) or (uri rules); the accepting early return (validate only the first) is a failure.
-func (c *Ctx) endpointListRule(k string, entry *ssa.Function, uriOK func(pathPred) []*GCheck, notString func(pathPred) *GCheck) {
-	// discover list handlers: module functions reachable from entry whose single parameter is []interface{} or []string
-	seen := map[*ssa.Function]bool{}
-	var handlers []*ssa.Function
-	var visit func(f *ssa.Function, d int)
-	visit = func(f *ssa.Function, d int) {
-		if seen[f] || d > 6 || f.Blocks == nil || !inModule(f) {
-			return
-		}
-		seen[f] = true
-		if len(f.Params) == 1 {
-			ts := typeShort(f.Params[0].Type())
-			if (ts == "[]interface{}" || ts == "[]string") && len(naturalLoops(f)) > 0 && isErrType(f.Signature.Results().At(f.Signature.Results().Len()-1).Type()) {
-				// called with the endpoint?
-				handlers = append(handlers, f)
-			}
-		}
-		forEachInstr(f, func(in ssa.Instruction) {
-			if cl, ok := in.(*ssa.Call); ok {
-				for _, g := range c.Callees(&cl.Call) {
-					visit(g, d+1)
-				}
-			}
-		})
-	}
-	visit(entry, 0)
+// endpointListRule: wherever the call tree loops over a list endpoint (endpoint.([]string) / endpoint.([]interface{}),
+// in a handler function of its own or inline in the type switch), every iteration crosses (entry not a string) or
+// (uri rules); the accepting early return (validate only the first) is a failure.
+func (c *Ctx) endpointListRule(k string, entry *ssa.Function, E pathPred, uriOK func(pathPred) []*GCheck, notString func(pathPred) *GCheck) {
 	n := 0
-	for _, h := range handlers {
-		ts := typeShort(h.Params[0].Type())
-		// only handlers fed from the endpoint type switch: their call site argument is E.(T)#0
-		used := false
-		for f := range seen {
-			for _, cl := range callsTo(f, h) {
-				if strings.Contains(c.Path(cl.Call.Args[0], nil), ".(") {
-					used = true
-				}
-			}
+	for _, ts := range []string{"[]string", "[]interface{}"} {
+		el := elemOfP(sufP(E, ".("+ts+")#0"))
+		u := el
+		if ts == "[]interface{}" {
+			u = sufP(el, ".(string)#0")
 		}
-		if !used {
-			continue
-		}
-		n++
-		el := "$0[ι]"
-		for i, ck := range uriOK(pathIs(map[string]string{"[]string": el, "[]interface{}": el + ".(string)#0"}[ts])) {
+		found := false
+		for i, ck := range uriOK(u) {
 			var chk *GCheck = ck
 			if ts == "[]interface{}" {
-				chk = anyOf("entry is not a string, or "+ck.Name, notString(pathIs(el)), ck)
+				chk = anyOf("entry is not a string, or "+ck.Name, notString(el), ck)
 			}
-			ok, w, nl := c.GuardLoop(h, nil, chk)
-			c.Check("C13.G1", fmt.Sprintf("%s:list-endpoint(%s)-uri-%d@%s", k, ts, i, h.Name()), ok && nl > 0, h.Pos(), fmt.Sprintf("%s: every string entry of a list endpoint is a non-empty valid URI [%s]", short(h.String()), chk.Name), w...)
+			seen := map[string]bool{}
+			var visit func(f *ssa.Function, env Env, d int)
+			visit = func(f *ssa.Function, env Env, d int) {
+				key := f.String() + "|" + env.key()
+				if d > 6 || seen[key] || f.Blocks == nil || !inModule(f) {
+					return
+				}
+				seen[key] = true
+				inLoop := false
+				ss := c.sites(f, env, chk, 0)
+				for _, l := range naturalLoops(f) {
+					for _, st := range ss {
+						if l.blocks[st.instr.Block()] || l.insideBody(st.instr.Block()) {
+							inLoop = true
+						}
+					}
+				}
+				if inLoop {
+					found = true
+					ok, w, nl := c.GuardLoop(f, env, chk)
+					c.Check("C13.G1", fmt.Sprintf("%s:list-endpoint(%s)-uri-%d@%s", k, ts, i, f.Name()), ok && nl > 0, f.Pos(), fmt.Sprintf("%s: every string entry of a list endpoint is a non-empty valid URI [%s]", short(f.String()), chk.Name), w...)
+					return
+				}
+				forEachInstr(f, func(in ssa.Instruction) {
+					if cl, ok := in.(*ssa.Call); ok {
+						for _, g := range c.Callees(&cl.Call) {
+							visit(g, c.calleeEnvV(&cl.Call, g, env, cl), d+1)
+						}
+					}
+				})
+			}
+			visit(entry, nil, 0)
+		}
+		if found {
+			n++
 		}
 	}
-	c.Check("C13.G1", k+":list-endpoint-handlers", n >= 2, entry.Pos(), fmt.Sprintf("%d list-endpoint handlers ([]string and []interface{}) found in the call tree of %s", n, short(entry.String())))
+	c.Check("C13.G1", k+":list-endpoint-handlers", n >= 2, entry.Pos(), fmt.Sprintf("%d list-endpoint loops ([]string and []interface{}) found in the call tree of %s", n, short(entry.String())))
 }
 
 type pathPred = func(string) bool
